@@ -72,12 +72,17 @@ def gen_case(rng, tier):
         fmt = rng.choice(FORMATS_D if unit == "D" else FORMATS_T)
         if subsec:
             fmt = "%Y-%m-%d %H:%M:%S.%f"
+        composite = unit != "D" and not subsec and rng.random() < 0.2
+        if composite:
+            # composite directives that print the time of day without naming %H / %M / %S (the inverse is not asked for:
+            # "%X" alone carries no date)
+            fmt = rng.choice(["%X", "%c", "%Y-%m-%d %X", "%x %X", "%d.%m.%Y %T", "%R on %Y%m%d"])
         # years below 1000: glibc's %Y does not pad them, so strptime cannot read them back; to_string must still give
         # exactly what datetime.strftime gives for them ("tostring_only": the inverse is not asked for)
         early = any(v is not None and v[:4] < "1000" for v in vals)
         if rng.random() < 0.3 and fmt.count("%Y") == 1:
             fmt = fmt.replace("%Y", rng.choice(["%Y", "%%Y%Y", "%Y%%"]))       # a literal percent sign next to the year
-        return {"op": "strings", "unit": unit, "vals": vals, "fmt": fmt, "via": rng.choice(["module", "proxy"]), "tostring_only": early}
+        return {"op": "strings", "unit": unit, "vals": vals, "fmt": fmt, "via": rng.choice(["module", "proxy"]), "tostring_only": early or composite}
     svals = [rng.choice(STRINGS) for _ in range(n)]
     if c < 0.82:
         f, args = rng.choice(STRFUNCS)
